@@ -578,11 +578,11 @@ Lemma final_hdr_count ap h vl fmt recs evl h0 b0 h' :
   final_hdr ap h vl fmt recs evl = Ok h' ->
   aint h' "point_count" = len recs /\ aint h' "point_size" = aint h0 "point_size".
 Proof.
-  intros H0 Hf. unfold final_hdr in Hf. rewrite H0 in Hf. cbn [bind fst snd] in Hf.
-  destruct (enc_vlrs true evl) as [eb|e]; [|discriminate]. cbn [bind] in Hf.
-  match type of Hf with bind (enc_header (with_stats h0 ?s) vl true) _ = _ => set (st := s) in * end.
+  intros H0. unfold final_hdr. rewrite H0. cbn [bind fst snd].
+  destruct (enc_vlrs true evl) as [eb|e]; [|discriminate]. cbn [bind].
+  match goal with |- bind (enc_header (with_stats h0 ?s) vl true) _ = _ -> _ => set (st := s) end.
   destruct (enc_header (with_stats h0 st) vl true) as [[hh bb]|e] eqn:E; [|discriminate].
-  cbn [bind fst] in Hf. injection Hf as ->.
+  cbn [bind fst]. intros [= <-].
   split.
   - rewrite (enc_header_keeps _ _ _ _ _ "point_count" E) by reflexivity.
     unfold aint. rewrite aget_with_stats_count.
